@@ -20,7 +20,7 @@ vars == <<sent, got, scn>>
 
 Rest(route) == IF route = "anthropic" THEN "/v1/chat/completions" ELSE "/v1/chat/completions"
 ExpectedTarget(s) == IF s.query = "" THEN s.rest ELSE s.rest \o "?" \o s.query
-Translated(route) == route = "anthropic"
+Translated(route) == route \in {"anthropic", "anthropic_pt"}   \* _pt: served in passthrough mode
 
 Init == sent = <<>> /\ got = <<>> /\ scn = <<>>
 
